@@ -79,7 +79,7 @@ def check_stale_harvest_reads(P, rule, reach):
                     o = f.origin(a_)
                     if o[0] == "aggr" and isinstance(o[1], dict) and any(k in (o[1].get("closure") or o[1].get("def") or "") for k in clos):
                         hit = c
-                if hit is None and clos and any(any(k.endswith(g_) or g_ in k for k in clos) for g_ in (c.generics or [])):
+                if hit is None and clos and any("{closure" in g_ and any(k == g_ or k.endswith(g_) or g_.endswith(k) for k in clos) for g_ in (c.generics or [])):
                     hit = c
             if hit is not None and all(not f.dominates(ab, b) for (b, _) in early):
                 rule.bad(V(rule.id, fid, "harvest-reads-field-before-assignment:%s" % fld["name"],
